@@ -132,6 +132,11 @@ impl EightChar {
         let mut solar_day: SolarDay = solar_time.get_solar_day();
         let d: isize = self.day.next(-(solar_day.get_lunar_day().get_sixty_cycle().get_index() as isize)).get_index() as isize;
         if d > 0 {
+          // 推移后超出公历范围（9999年12月31日之后）的日子不存在
+          if solar_day.get_julian_day().get_day() + d as f64 > SolarDay::from_ymd(9999, 12, 31).get_julian_day().get_day() {
+            y += 60;
+            continue;
+          }
           // 从节令推移天数
           solar_day = solar_day.next(d);
         }
